@@ -4,7 +4,8 @@
  *   NVFI_PLAN = "<idx>:<kind>[,<idx>:<kind>...]"   idx counts tracked calls from 0
  *   kind = E<errno>   fail with that errno (nothing is written)
  *          S<k>       short count: really write min(k, n-1) >= 1 bytes and return that
- *   NVFI_LOG  = file to which every tracked call is appended ("open", "write <n>", "close", with the fault applied)
+ *   NVFI_LOG  = file to which every tracked call is appended ("open", "write <n>", "truncate", "close", with the fault applied)
+ *   NVFI_RPATH / NVFI_RFLAG: reads on a descriptor opened read-only on NVFI_RPATH while the file NVFI_RFLAG existed fail with EIO
  */
 #define _GNU_SOURCE
 #include <dlfcn.h>
@@ -74,11 +75,21 @@ static int is_target(const char *path, int flags)
 	return t && (flags & (O_WRONLY | O_RDWR)) && !strcmp(base(path), t);
 }
 
+static int rtracked[1024];
+
 static int do_open(const char *path, int flags, int mode, const char *name)
 {
 	int (*ropen)(const char *, int, ...) = dlsym(RTLD_NEXT, name);
 	int fd, k;
 	char msg[64];
+	const char *rp = getenv("NVFI_RPATH");
+	const char *rf = getenv("NVFI_RFLAG");
+	if (rp && rf && !(flags & (O_WRONLY | O_RDWR)) && !strcmp(base(path), rp)) {
+		fd = ropen(path, flags, mode);
+		if (fd >= 0 && fd < 1024)
+			rtracked[fd] = access(rf, F_OK) == 0;
+		return fd;
+	}
 	if (is_target(path, flags)) {
 		int f = fault(&k);
 		snprintf(msg, sizeof(msg), "open%s", f == 1 ? " FAULT" : "");
@@ -135,13 +146,42 @@ ssize_t write(int fd, const void *buf, size_t n)
 	return rwrite(fd, buf, n);
 }
 
+/* the final cut of the file to its new length belongs to the write sequence */
+static int do_truncate(int fd, long long sz, const char *name)
+{
+	int (*rtrunc)(int, off_t) = dlsym(RTLD_NEXT, "ftruncate");
+	if (fd >= 0 && fd < 1024 && tracked[fd]) {
+		int k;
+		int f = fault(&k);
+		logcall(f == 1 ? "truncate FAULT" : "truncate");
+		if (f == 1)
+			return -1;
+	}
+	return rtrunc(fd, (off_t) sz);
+}
+
+int ftruncate(int fd, off_t sz)
+{
+	return do_truncate(fd, sz, "ftruncate");
+}
+
+int ftruncate64(int fd, off64_t sz)
+{
+	return do_truncate(fd, sz, "ftruncate64");
+}
+
 /* C19: when the key 0x1c (unbound in vi) is read from the terminal, emit a marker on fd 1: everything the
  * editor wrote for the keys before it precedes the marker (each main-loop iteration commits its output) */
 ssize_t read(int fd, void *buf, size_t n)
 {
 	ssize_t (*rread)(int, void *, size_t) = dlsym(RTLD_NEXT, "read");
 	ssize_t (*rwrite)(int, const void *, size_t) = dlsym(RTLD_NEXT, "write");
-	ssize_t r = rread(fd, buf, n);
+	ssize_t r;
+	if (fd >= 0 && fd < 1024 && rtracked[fd]) {	/* a read-only descriptor on NVFI_RPATH opened while NVFI_RFLAG existed */
+		errno = EIO;
+		return -1;
+	}
+	r = rread(fd, buf, n);
 	if (fd == 0 && r == 1 && *(unsigned char *) buf == 0x1c && getenv("NVFI_MARK"))
 		rwrite(1, "\0MARK\0", 6);
 	return r;
@@ -150,6 +190,8 @@ ssize_t read(int fd, void *buf, size_t n)
 int close(int fd)
 {
 	int (*rclose)(int) = dlsym(RTLD_NEXT, "close");
+	if (fd >= 0 && fd < 1024)
+		rtracked[fd] = 0;
 	if (fd >= 0 && fd < 1024 && tracked[fd]) {
 		int k;
 		int f = fault(&k);
